@@ -81,3 +81,46 @@ func VerifC19_Multisig() {
 	zz.Assert("C19.wrapper.rejects-other-message", !keys[0].VerifyBytes(other, s0))
 	zz.Reach("C19.multisig")
 }
+
+// VerifC19_Nested: a multisignature key whose first member is itself a 2-key multisignature: [multi(A,B), C].
+// It verifies only when the nested component verifies AND C signed in its own position.
+func VerifC19_Nested() {
+	pa, ka := vKeyPair(0)
+	pb, kb := vKeyPair(1)
+	pc, kc := vKeyPair(2)
+	inner := PublicKeyMultiSignature{PublicKeys: []PublicKey{ka, kb}}
+	outer := PublicKeyMultiSignature{PublicKeys: []PublicKey{inner, kc}}
+	msg := []byte("nested-message")
+	other := []byte("another-message")
+	sign := func(p Ed25519PrivateKey, m []byte) []byte { s, _ := p.Sign(m); return s }
+	// inner component: kinds per member
+	ia, ib := zz.Choice("inner_a", 3), zz.Choice("inner_b", 3)
+	pick := func(kind int, right, wrong Ed25519PrivateKey) []byte {
+		switch kind {
+		case 0:
+			return sign(right, msg)
+		case 1:
+			return sign(wrong, msg)
+		}
+		return sign(right, other)
+	}
+	innerSig := MultiSignature{Sigs: [][]byte{pick(ia, pa, pb), pick(ib, pb, pa)}}.Marshal()
+	var cSig []byte
+	ck := zz.Choice("outer_c", 5)
+	switch ck {
+	case 0:
+		cSig = sign(pc, msg)
+	case 1:
+		cSig = sign(pa, msg) // a duplicate of A's signature
+	case 2:
+		cSig = sign(pc, other)
+	case 3:
+		cSig = []byte{1, 2, 3}
+	case 4:
+		cSig = innerSig // the nested component repeated
+	}
+	outerSig := MultiSignature{Sigs: [][]byte{innerSig, cSig}}.Marshal()
+	got := outer.VerifyBytes(msg, outerSig)
+	zz.Assert("C19.nested.verifies-iff-every-component-signed-in-position", got == (ia == 0 && ib == 0 && ck == 0))
+	zz.Reach("C19.nested")
+}
